@@ -107,12 +107,15 @@ _RECOG = {
 }
 
 
-def recognize(api, text, culture, ref=None):
+def recognize(api, text, culture, ref=None, opt=0):
     if api == 'datetime':
         fn = L['datetime'].recognize_datetime
+        kw = {}
+        if opt:
+            kw['options'] = L['datetime'].DateTimeOptions(opt)
         if ref:
-            return fn(text, culture, reference=parse_ref(ref))
-        return fn(text, culture)
+            kw['reference'] = parse_ref(ref)
+        return fn(text, culture, **kw)
     lib, name = _RECOG[api]
     return getattr(L[lib], name)(text, culture)
 
@@ -122,7 +125,7 @@ def run_case(case):
     fn = _HANDLERS.get(api)
     if fn is not None:
         return fn(case)
-    ents = recognize(api, case['text'], case['culture'], case.get('ref'))
+    ents = recognize(api, case['text'], case['culture'], case.get('ref'), case.get('opt') or 0)
     return {'ents': [proj_entity(r) for r in ents]}
 
 
